@@ -42,6 +42,8 @@ func init() {
 		// the aliases moq reads back from its own earlier output: a new import starts with exactly the alias found in the source files
 		gen.CheckImports(c.Run, c.Prog)
 		importTables(c)
+		c.Run.Floor("G-MOCK/qualifier-final", 1)
+		c.RunSkeletons(SkelOpts{Rules: []string{"G-MOCK/qualifier-final"}, Env: smallEnv, NoExpand: true})
 		c.Run.Floor("G-RM/before-load", 1)
 		c.Run.Floor("G-RM/error", 2)
 	})
